@@ -41,7 +41,7 @@ def main():
             return ["error", type(e).__name__]
 
     for g in range(3):
-        mods = random_tree(rnd, 10, 14)
+        mods = random_tree(rnd, 12, 16, depth=4)
         imps = random_imports(rnd, mods, k_max=25)
         ev = EvaluableArchitectureGraph(NetworkxGraph(list(mods), [AbsoluteImport(a, b) for a, b in imps]))
         names = [m for m in mods if m != "r"]
@@ -51,6 +51,14 @@ def main():
             items[f"g{g}.rule{i}"] = out(mk_rule(cfg), ev)
         items[f"g{g}.any"] = out(Rule().modules_that().are_named(rnd.sample(names, 3)).should_not().import_anything(), ev)
         items[f"g{g}.regex"] = out(Rule().modules_that().have_name_matching(r"r\.[a-z_]+$").should_not().import_modules_that().have_name_matching(r"r\.[a-z_]+\.[a-z_]+$"), ev)
+        nested = sorted(m for m in mods if m.count(".") == 2 and any(x.startswith(m + ".") for x in mods))
+        if nested:
+            inner = nested[0]
+            outer = inner.rsplit(".", 1)[0]
+            arch_n = LayeredArchitecture().layer("outer").containing_modules([outer]).layer("inner").containing_modules([inner])
+            for v in ("should", "should_only", "should_not"):
+                items[f"g{g}.nested.{v}"] = out(getattr(LayerRule().based_on(arch_n).layers_that().are_named("inner"), v)().access_layers_that().are_named("outer"), ev)
+                items[f"g{g}.nested.{v}.exc"] = out(getattr(LayerRule().based_on(arch_n).layers_that().are_named("outer"), v)().be_accessed_by_layers_except_layers_that().are_named("inner"), ev)
         tops = sorted(m for m in mods if m.count(".") == 1)
         if len(tops) >= 3:
             arch = LayeredArchitecture().layer("A").containing_modules(tops[:1]).layer("B").containing_modules(tops[1:2]).layer("C").have_modules_with_names_matching("^(" + "|".join(t.replace(".", r"\.") for t in tops[2:]) + ")$")
